@@ -5,6 +5,7 @@ parameter sets (capacities ...) it is instantiated with per tier.  The driver
 generates `verif_kani/gen.rs` from this registry on every run, so the registry is
 the single source of truth for what is run and reported.
 """
+import os
 
 PASS = {"kind": "pass"}
 CANARY = {"kind": "canary"}
@@ -441,3 +442,12 @@ add("c20_decode_in_place", "c20::h_decode_in_place::<{N}>({A})", ["C20"], NL(2, 
 
 def units_for(prop):
     return [u for u in UNITS if prop in u.props or "*" in u.props]
+
+
+# development aid (never set by the registered commands): try one wide capacity on every single-parameter unit
+if os.environ.get("VERIF_WIDE_ALL"):
+    _w = int(os.environ["VERIF_WIDE_ALL"])
+    for _u in UNITS:
+        if _u.expect["kind"] == "pass" and not _u.contracts and _u.thorough and all(set(p) == {"N"} for p in _u.thorough) \
+                and {"N": _w} not in _u.thorough:
+            _u.thorough = list(_u.thorough) + [{"N": _w}]
